@@ -117,17 +117,27 @@ def run(model, rep, tier):
         cands = [n for n in walk_local(fn) if isinstance(n, ast.For) and isinstance(n.iter, ast.Tuple) and len(n.iter.elts) == 2
                  and all(isinstance(e, ast.Name) for e in n.iter.elts)]
         ok = False
+        from ._common import update_of
         for c in cands:
             s_ = unparse(c.target)
             inner = [n for n in ast.walk(c) if isinstance(n, ast.For) and unparse(n.iter) == "superdict['states'].items()"]
             if inner:
                 k_, v_ = [unparse(e) for e in inner[0].target.elts]
-                ok = pattern.has(inner[0], '_N_g, _N_m = _N_v.equivalencemap(_N_s)', _N_v=v_, _N_s=s_) and \
-                    pattern.has(inner[0], "superdict['transmapping'][_N_t] += ((_N_k, _N_g, _N_m),)", _N_k=k_)
+                em = pattern.find(inner[0], '_N_g, _N_m = _N_v.equivalencemap(_N_s)', _N_v=v_, _N_s=s_)
+                rec = False
+                if em:
+                    want = '((%s, %s, %s),)' % (k_, em[0]['_N_g'], em[0]['_N_m'])
+                    for st_ in ast.walk(inner[0]):
+                        u = update_of(st_) if isinstance(st_, (ast.Assign, ast.AugAssign)) else None
+                        if u and u[1] == 'Add' and unparse(u[2]) == want:
+                            # accumulated directly in superdict['transmapping'][tag], or in a local that is stored there
+                            rec = u[0].startswith("superdict['transmapping'][") or any(
+                                isinstance(a, ast.Assign) and unparse(a.targets[0]).startswith("superdict['transmapping'][")
+                                and unparse(a.value) == u[0] for a in walk_local(fn))
                 names = [e.id for e in c.iter.elts]
-                # (initial, final) order: the names assigned first/second in `super0, super1 = ...`
-                first = pattern.find(fn, '_N_x, _N_y = (basesupercell.copy(), basesupercell.copy())')
-                ok = ok and bool(first) and names == [first[0]['_N_x'], first[0]['_N_y']]
+                # (initial, final) order: the order in which the two supercells are stored as the transition
+                stored = pattern.find(fn, "superdict['transitions'][_N_t] = (_N_x, _N_y)")
+                ok = bool(em) and rec and bool(stored) and all(names == [b['_N_x'], b['_N_y']] for b in stored)
         rep.ob('mapping-search', mod, fn, '%s.makesupercells: for s in (initial, final): first state supercell v with v.equivalencemap(s) -> (tag, g, mapping)' % q,
                ok, '' if ok else 'mappings are recorded in the wrong order or for the wrong supercell', engine='flow', qual=q + '.makesupercells')
     # ---- keys
@@ -156,5 +166,10 @@ BREAKERS = [
      "                if PS in self.thermo:\n                    failstate = 'thermodynamic range'\n                else:\n                    continue", None),
     (OC, "                    super0[ind1], super1[ind0] = self.chem, self.chem\n                else:", "                    super0[ind0], super1[ind1] = self.chem, self.chem\n                else:", 'neb-ordering'),
     (OC, "                super0[ind] = chem\n                superdict['states'][tag] = super0", "                super0.occ[super0.index(ind)] = chem\n                superdict['states'][tag] = super0", 'placement'),
+]
+BREAKERS += [
+    (OC, "            for s in (super0, super1):\n                for k, v in superdict['states'].items():\n                    # attempt the mapping\n                    g, mapping = v.equivalencemap(s)",
+     "            for s in (super1, super0):\n                for k, v in superdict['states'].items():\n                    # attempt the mapping\n                    g, mapping = v.equivalencemap(s)", 'mapping-search'),
+    (OC, "                        g, mapping = v.equivalencemap(s)", "                        g, mapping = v.equivalencemap(super0)", 'mapping-search'),
 ]
 NEUTRALS = []
